@@ -24,6 +24,8 @@ PROPS = [f"C{i:02d}" for i in range(1, 21)]
 def run_property(pid: str, tier: str, root: str, quiet=False, write=True):
     t0 = time.time()
     prog = Program(root)
+    from sa import tables as _tables
+    _tables.read_as_tables(prog)
     mod = importlib.import_module(f"sa.props.{pid.lower()}")
     ctx = Ctx(prog, pid, tier)
     mod.check(ctx)
